@@ -1,11 +1,15 @@
 (* Extraction of the executable model and oracles.  ExtrOcamlBasic only: numbers stay
    the extracted inductives (positive / N / Z / nat). *)
 From Coq Require Import ExtrOcamlBasic ZArith.
-From ZV Require Import Str Sanitize SanitizeSpec.
+From ZV Require Import Str Dec Rx RegexSrc Sanitize SanitizeSpec SemVer.
 Extraction Language OCaml.
 Extraction "Extract/model.ml"
   N.div N.modulo N.add N.mul Z.add
   Str.byte_len Str.str_eqb Str.is_whitespace Str.is_ascii_alnum
   Sanitize.sanitize Sanitize.custom_str Sanitize.semver_str Sanitize.pep440_local_str
   Sanitize.uint_sanitizer Sanitize.key_sanitizer
-  SanitizeSpec.contract_b SanitizeSpec.spec_sanitize SanitizeSpec.uint_spec.
+  SanitizeSpec.contract_b SanitizeSpec.spec_sanitize SanitizeSpec.uint_spec
+  Dec.parse_dec Dec.print_dec Rx.rx_accepts
+  RegexSrc.semver_src RegexSrc.semver_spec RegexSrc.semver_atom_of
+  SemVer.semver_parse SemVer.semver_extract SemVer.semver_print SemVer.semver_cmp SemVer.semver_eqb
+  SemVer.max_by_last SemVer.semver_check SemVer.strip_v SemVer.semver_docker.
